@@ -37,6 +37,45 @@ Theorem C18_accept_now_partial : forall verify layers now a, check_now verify la
 Proof. exact accept_now_implies. Qed.
 Print Assumptions C18_accept_now_partial.
 
+(* What the three `_partial` theorems exclude, exactly:
+   - C18_accept_implies_partial / C18_accept_now_partial: only the forward direction, and `verify` is a parameter (RSA,
+     SHA-512 and OpenPGP packet parsing are not modelled). Everything else of Database.Check for assertion types with an
+     authority is in the statement. The FULL characterisations of the model's `check` follow (C18_check_iff,
+     C18_check_now_iff): iff, every layer list, every assertion, every clock, every verify.
+   - C18_any_mutation_rejected_partial: needs the idealised-signature hypothesis and speaks about the signature CORE only; its
+     sharpened form with the decoded signature's fields is C18_accepted_only_framing_differs /
+     C18_mutation_outside_framing_rejected / C18_framing_is_free below.
+   Outside ALL of them: assertion types without authority (account-key-request, serial-request, device-session-request),
+   CheckCrossConsistency, regexps in account-key constraints beyond literals, the bytes -> packet-fields parse of the
+   decoded signature (driver projection c18Parse/c18Core). *)
+
+(* Database.Check accepts EXACTLY when: format supported; the first layer holding the sign-key id yields a key; its account
+   is the assertion's authority-id; it passes the expiry check for the clock bounds; its constraints allow the assertion;
+   verify holds for that key on exactly the assertion's content and signature core; it is valid at the assertion's
+   timestamp when there is one. *)
+Theorem C18_check_iff : forall verify layers e l a, check verify layers e l a = true <->
+  a_supported a = true /\
+  exists k, find_key layers (a_sign_key a) = Some k /\
+    k_account k = a_authority a /\
+    valid_assuming k e l = true /\
+    can_sign k a = true /\
+    verify (k_id k) (a_content a) (a_sig_core a) = true /\
+    (forall t, a_timestamp a = Some t -> valid_at k t = true).
+Proof. exact check_iff. Qed.
+Print Assumptions C18_check_iff.
+
+(* with the system clock, the window boundaries spelled out: since <= now < until and since <= timestamp < until *)
+Theorem C18_check_now_iff : forall verify layers now a, check_now verify layers now a = true <->
+  a_supported a = true /\
+  exists k, find_key layers (a_sign_key a) = Some k /\
+    k_account k = a_authority a /\
+    k_since k <= now /\ (forall u, k_until k = Some u -> now < u) /\
+    can_sign k a = true /\
+    verify (k_id k) (a_content a) (a_sig_core a) = true /\
+    (forall t, a_timestamp a = Some t -> k_since k <= t /\ forall u, k_until k = Some u -> t < u).
+Proof. exact check_now_iff. Qed.
+Print Assumptions C18_check_now_iff.
+
 (* what `constraints admit` means: no constraints header at all, or one LISTED constraint all of whose header = value
    pairs hold *)
 Theorem C18_can_sign_spec : forall k a, can_sign k a = true ->
@@ -167,6 +206,55 @@ Theorem C18_sig_outside_core_ignored : forall verify layers e l a s',
   = check verify layers e l a.
 Proof. exact sig_outside_core_ignored. Qed.
 Print Assumptions C18_sig_outside_core_ignored.
+
+(* The mutation statement with the decoded signature's fields. A decoded signature is an OpenPGP v4 signature packet
+   p : sigpkt (sig_bytes p = the decoded bytes): packet header (form and declared length), hashed part (version, type,
+   algorithms, hashed subpackets), unhashed subpacket area, hash tag, MPI bit-length field, MPI bytes. Its VALUE
+   (sig_value) is (hashed part, hash tag, MPI bytes); the core the driver computes is an injective encoding of the value.
+   Hypothesis: verify is a function of (key, content, signature value) and only genuinely signed triples verify.
+   Then whatever Check accepts has the content and the signature VALUE of something genuinely signed with the named key: of
+   the decoded signature only the four framing fields can differ - header form (sig-packet-header-form) and declared length
+   (sig-packet-length), both in sp_header; the unhashed area (sig-unhashed-subpacket); the MPI bit-length field
+   (sig-mpi-bitlength). *)
+Theorem C18_accepted_only_framing_differs : forall verify (enc : bytes * bytes * bytes -> bytes),
+  (forall x y, enc x = enc y -> x = y) ->
+  forall G : list (bytes * bytes * sigpkt),
+  (forall kid c s, verify kid c s = true -> exists p0, In (kid, c, p0) G /\ s = enc (sig_value p0)) ->
+  forall layers e l a p, a_sig a = sig_bytes p -> a_sig_core a = enc (sig_value p) ->
+  check verify layers e l a = true ->
+  exists p0, In (a_sign_key a, a_content a, p0) G /\ same_value p p0.
+Proof. exact accepted_only_framing_differs. Qed.
+Print Assumptions C18_accepted_only_framing_differs.
+
+(* as a rejection statement: changing any byte of the content, or any byte of the decoded signature outside the framing
+   fields (in the hashed part, the hash tag or the MPI bytes), is rejected - unless the result has the content and value of
+   something else genuinely signed with that key *)
+Theorem C18_mutation_outside_framing_rejected : forall verify (enc : bytes * bytes * bytes -> bytes),
+  (forall x y, enc x = enc y -> x = y) ->
+  forall G : list (bytes * bytes * sigpkt),
+  (forall kid c s, verify kid c s = true -> exists p0, In (kid, c, p0) G /\ s = enc (sig_value p0)) ->
+  forall layers e l a p, a_sig a = sig_bytes p -> a_sig_core a = enc (sig_value p) ->
+  (forall p0, In (a_sign_key a, a_content a, p0) G -> ~ same_value p p0) ->
+  check verify layers e l a = false.
+Proof. exact mutation_outside_framing_rejected. Qed.
+Print Assumptions C18_mutation_outside_framing_rejected.
+
+(* and the framing fields ARE free (the four known finding classes are exactly this freedom): assertions that differ only
+   in packet header, unhashed area and MPI bit-length field of the decoded signature get the same verdict, for any verify *)
+Theorem C18_framing_is_free : forall verify (enc : bytes * bytes * bytes -> bytes) layers e l a a' p p',
+  a_sig_core a = enc (sig_value p) -> a_sig_core a' = enc (sig_value p') -> same_value p p' ->
+  a_supported a' = a_supported a -> a_authority a' = a_authority a -> a_sign_key a' = a_sign_key a ->
+  a_timestamp a' = a_timestamp a -> a_headers a' = a_headers a -> a_content a' = a_content a ->
+  check verify layers e l a' = check verify layers e l a.
+Proof. exact framing_is_free. Qed.
+Print Assumptions C18_framing_is_free.
+
+(* non-vacuity of the framing statements: two packets with the same value and different framing have different bytes *)
+Example C18_ex_framing :
+  let p0 := mkSig [194; 112]%N [4; 0; 1; 10; 0; 0]%N [] [7; 9]%N [2; 240]%N [5; 6]%N in
+  let p1 := mkSig [137; 0; 112]%N [4; 0; 1; 10; 0; 0]%N [3; 100; 170; 187]%N [7; 9]%N [2; 236]%N [5; 6]%N in
+  same_value p1 p0 /\ sig_bytes p1 <> sig_bytes p0.
+Proof. cbv zeta. split; [repeat split | discriminate]. Qed.
 
 (* the verify instance used by the correspondence satisfies that hypothesis for G = [the genuine triple] *)
 Theorem C18_ideal_instance : forall signed kid c s, ideal_verify signed kid c s = true -> In (kid, c, s) [signed].
